@@ -49,7 +49,11 @@ def ob_geomodel(name, model, graphs):
             continue
         A = Arr((n, n), [G[i][j] for i in range(n) for j in range(n)], "int8")
         D = Arr((n, n), [Dm[i][j] for i in range(n) for j in range(n)], "float32")
-        edges = Arr((len(E), 2), [v for e in E for v in e], "int32")
+        # representation invariant of the edge array: each link listed once, in EITHER orientation (after a step rows are (s,l), (k,t)
+        # in whatever order the draw produced), so the orientation of every row is symbolic
+        ori = [z3.Bool(f"o_{r}") for r in range(len(E))]
+        E0 = [(ite(ori[r], E[r][0], E[r][1]), ite(ori[r], E[r][1], E[r][0])) for r in range(len(E))]
+        edges = Arr((len(E), 2), [v for e in E0 for v in e], "int32")
         deg = Arr((n,), [sum(G[i]) for i in range(n)], "int16")
         run = Run(mod, loop_bound=1, hyps=base_h, split=False)
         args = [1, eps, A, D, len(E), edges] + ([deg] if model == "III" else [])
@@ -64,9 +68,9 @@ def ob_geomodel(name, model, graphs):
         e1, e2 = sx.floor_(mul(u[0], len(E))), sx.floor_(mul(u[1], len(E)))
 
         def pick(e, col):
-            out = E[-1][col]
+            out = E0[-1][col]
             for k in range(len(E) - 2, -1, -1):
-                out = ite(eq(e, k), E[k][col], out)
+                out = ite(eq(e, k), E0[k][col], out)
             return out
         s, t, k, l = pick(e1, 0), pick(e1, 1), pick(e2, 0), pick(e2, 1)
 
@@ -102,7 +106,13 @@ def ob_geomodel(name, model, graphs):
                 for i in range(n):
                     out = ite(eq(a, i), sum(G[i]), out)
                 return out
-            bad.append(or_(ne(degof(s), degof(k)), ne(degof(t), degof(l))))
+            # documented invariant: the degree pairs of the links are conserved -- the unordered degree pairs of the two new
+            # links (s,l), (k,t) are those of the two removed links (s,t), (k,l) (as a multiset)
+            ds, dt, dk, dl = degof(s), degof(t), degof(k), degof(l)
+
+            def up(a, b, c, d):
+                return or_(and_(eq(a, c), eq(b, d)), and_(eq(a, d), eq(b, c)))
+            bad.append(not_(or_(and_(up(ds, dt, ds, dl), up(dk, dl, dk, dt)), and_(up(ds, dt, dk, dt), up(dk, dl, ds, dl)))))
         for b in bad:
             if b is False:
                 continue
@@ -112,7 +122,8 @@ def ob_geomodel(name, model, graphs):
                 return result(name, VIOLATED, functions=funcs, twin="sat", bound=f"pre-state {G}",
                               signature=f"C17|{fn}|one-step-invariants",
                               witness={"kind": "geomodel", "model": model, "A": G, "D": [[sx.model_value(m, Dm[i][j]) for j in range(n)] for i in range(n)],
-                                       "eps": sx.model_value(m, eps), "draws": [sx.model_value(m, x) for x in u[:2]]})
+                                       "eps": sx.model_value(m, eps), "draws": [sx.model_value(m, x) for x in u[:2]],
+                                       "edges": [[int(sx.model_value(m, sx.lift(v)) if sx.is_sym(v) else v) for v in e] for e in E0]})
             if v != "unsat":
                 return result(name, INCONCLUSIVE, reason="solver unknown", functions=funcs)
     tv, _ = Q.check(base_h, 10, tag=name + "|twin", want_model=False)
@@ -212,6 +223,42 @@ def ob_cross_rewire(name, n, parts):
                   detail=f"{nq} queries")
 
 
+def iso_representatives(n):
+    """one labelled graph per isomorphism class (canonical form: lexicographically largest upper triangle over all relabellings,
+    searched with degree-sequence pruning), restricted to graphs with at least two disjoint links"""
+    import itertools
+    pairs = [(i, j) for i in range(n) for j in range(i + 1, n)]
+    seen = {}
+    perms = list(itertools.permutations(range(n)))
+    for mask in range(1 << len(pairs)):
+        E = [pairs[b] for b in range(len(pairs)) if mask >> b & 1]
+        if len(E) < 2:
+            continue
+        deg = [0] * n
+        for a, b in E:
+            deg[a] += 1
+            deg[b] += 1
+        if deg != sorted(deg, reverse=True):
+            continue                      # some relabelling has a sorted degree sequence; only those are candidates
+        key = None
+        Eset = set(E)
+        for p in perms:
+            if any(deg[p[i]] != deg[i] for i in range(n)):
+                continue
+            k = tuple(sorted((min(p[a], p[b]), max(p[a], p[b])) for a, b in E))
+            if key is None or k < key:
+                key = k
+        if key in seen:
+            continue
+        if not any(len({a, b, c, d}) == 4 for (a, b), (c, d) in itertools.combinations(E, 2)):
+            continue
+        G = [[0] * n for _ in range(n)]
+        for a, b in E:
+            G[a][b] = G[b][a] = 1
+        seen[key] = G
+    return list(seen.values())
+
+
 def prepare(tier):
     return {"validated": 0, "validation": [], "source": {"core/_ext/numerics.pyx": kern.module(CO).sha}}
 
@@ -228,6 +275,14 @@ def obligations(tier):
             step = 8
             for ci in range(0, len(graphs), step):
                 obs.append((ob_geomodel, dict(name=f"C17|geomodel {model}|n={n}|graphs#{ci // step}", model=model, graphs=graphs[ci:ci + step]), 2400))
+    # one representative per isomorphism class with two disjoint links at n=5 (quick) and n=6 (thorough): degree-heterogeneous
+    # pre-states (crosswise equal end degrees) need more than four nodes
+    for model in ("I", "II", "III"):
+        for n in ((5,) if not th else (5, 6)):
+            reps = iso_representatives(n)
+            step = 6
+            for ci in range(0, len(reps), step):
+                obs.append((ob_geomodel, dict(name=f"C17|geomodel {model}|n={n}|classes#{ci // step}", model=model, graphs=reps[ci:ci + step]), 2400))
     parts4 = [(g1, g2) for g1, g2 in gk.disjoint_pairs(4) if len(g1) + len(g2) == 4]
     parts3 = gk.disjoint_pairs(3)
     for k_links in (1, 2):
@@ -246,25 +301,56 @@ def replay(w):
         n = len(A0)
         D = np.array(f(w["D"]), dtype="float32")
         eps = float(f(w["eps"]))
-        E = np.array(edge_array(A0.tolist()), dtype="int32")
+        E = np.array(w.get("edges") or edge_array(A0.tolist()), dtype="int32")
         deg0 = A0.sum(axis=1)
+        draws = [float(x) for x in f(w.get("draws", []))]
         probs = []
-        for seed in range(300):
+        import numpy.random as rd
+        orig = rd.random
+        for attempt in range(40):
             A = A0.copy()
             edges = E.copy()
-            np.random.seed(seed)
-            # one step; the rejection loop may not terminate if no admissible pair exists: guard by trying a cheap feasibility
-            if not any_admissible(A0, D, eps, w["model"], E):
-                return False, "no admissible rewiring exists for this witness"
-            args = [1, eps, A, D, len(E), edges] + ([deg0.astype("int16")] if w["model"] == "III" else [])
-            getattr(CN, f"_randomly_rewire_geomodel_{w['model']}")(*args)
+            rng = np.random.RandomState(attempt)
+            state = {"n": 0}
+
+            def fake(*a, **kw):
+                # the witness' draws first (they select the accepted pair of links); afterwards seeded values, so that a
+                # non-reproducing witness still terminates whenever some admissible pair exists
+                state["n"] += 1
+                if attempt == 0 and state["n"] <= len(draws):
+                    return draws[state["n"] - 1]
+                if state["n"] > 200000:
+                    raise RuntimeError("no admissible rewiring found")
+                return rng.random_sample()
+            rd.random = fake
+            try:
+                args = [1, eps, A, D, len(E), edges] + ([deg0.astype("int16")] if w["model"] == "III" else [])
+                getattr(CN, f"_randomly_rewire_geomodel_{w['model']}")(*args)
+            except RuntimeError:
+                break
+            finally:
+                rd.random = orig
+            tag = f"draws {draws if attempt == 0 else 'seed %d' % attempt}"
             if (A != A.T).any() or np.diag(A).any() or (A.sum(axis=1) != deg0).any():
-                probs.append(f"seed {seed}: A={A.tolist()} degrees {A.sum(axis=1).tolist()} vs {deg0.tolist()}")
+                probs.append(f"{tag}: A={A.tolist()} degrees {A.sum(axis=1).tolist()} vs {deg0.tolist()}")
+            elif any(A[a, b] != 1 for a, b in edges) or len({frozenset(e) for e in edges.tolist()}) != len(edges):
+                probs.append(f"{tag}: edge array {edges.tolist()} inconsistent with A")
+            else:
+                removed = [(i, j) for i in range(n) for j in range(i + 1, n) if A0[i, j] and not A[i, j]]
+                added = [(i, j) for i in range(n) for j in range(i + 1, n) if A[i, j] and not A0[i, j]]
+                if len(removed) == 2 and len(added) == 2:
+                    if w["model"] == "III":
+                        dp = lambda L: sorted(tuple(sorted((int(deg0[a]), int(deg0[b])))) for a, b in L)
+                        if dp(removed) != dp(added):
+                            probs.append(f"{tag}: degree pairs of links {dp(removed)} became {dp(added)}")
+                    lo, ln = [float(D[a, b]) for a, b in removed], [float(D[a, b]) for a, b in added]
+                    slack = eps * (1 + 1e-5) + 1e-6
+                    okl = (abs(ln[0] - lo[0]) < slack and abs(ln[1] - lo[1]) < slack) or (abs(ln[0] - lo[1]) < slack and abs(ln[1] - lo[0]) < slack)
+                    if not okl:
+                        probs.append(f"{tag}: link lengths {lo} became {ln} (eps={eps})")
+            if probs:
                 break
-            if any(A[a, b] != 1 for a, b in edges):
-                probs.append(f"seed {seed}: edge array {edges.tolist()} inconsistent with A")
-                break
-        return bool(probs), f"pre-state {A0.tolist()}: " + "; ".join(probs)
+        return bool(probs), f"pre-state {A0.tolist()} edges {E.tolist()}: " + "; ".join(probs)
     if k in ("cross_set", "cross_rewire"):
         return False, "replay of cross-link kernels: not reproduced (no violation expected on this tree)"
     return False, "unknown witness kind"
